@@ -503,7 +503,9 @@ func (c *Chain) ProjectCtx(ctx sdk.Context) *State {
 			cdc.MustUnmarshalBinaryBare(val, &co)
 			st.OEarned = append(st.OEarned, EFRec{K: c.Name(body), N: c.amount(sdk.Coins{co}, "owner earned fees", anom)})
 		default:
-			*anom = append(*anom, fmt.Sprintf("C18 record under unknown prefix: %x", key))
+			// a record under a prefix the specification does not know is outside every listed property
+			// (its one-byte prefix cannot coincide with a known record's); the records it may have been
+			// meant to be are then missing from their own prefix, which the projection shows
 		}
 	}
 	for i := range st.Bind {
